@@ -1,4 +1,6 @@
-"""C13  A table's reported format string reproduces the table  (ak/ppobj.py, fmt mini-language)"""
+"""C13  A table's reported format string reproduces the table  (ak/ppobj.py, fmt mini-language)
+
+Notes: harness/props/c13.notes.md (model, theorem inventory, detection table)."""
 import ast
 import hashlib
 import os
@@ -29,7 +31,13 @@ RULE = ("life-cycle programs on one PPTable: constructor (fmt / limits= / skip_c
         "/ ';;' and render).  0-14 records so that small limits are exceeded.  Field names from the stated character "
         "set (blanks inside, parentheses, '<', '-', '*', non-ASCII, newline, empty) and, for the model only, names "
         "outside it.  Non-trivial = the program reaches a 'check' in a printed or re-formatted state with at least "
-        "one ranged column, or exercises a rejected fmt.")
+        "one ranged column, or exercises a rejected fmt.  SESSIONS (several tables alive in one run): 2-3 record sets "
+        "of one record structure with different width needs (short / long / mixed values, different record counts), 0-2 "
+        "shared PPTableFormat objects made with PPTableFormat.make, 2-4 tables created from fmt strings, with "
+        "fmt_obj=<shared object> or fmt_obj=<another table's live .fmt object> (mostly over other records than the "
+        "source's; limits= / skip_columns= sometimes), 5-12 interleaved operations (the ones above) on random tables, a "
+        "final check of every table; after every operation str(.fmt) of ALL tables and shared objects is observed.  "
+        "Non-trivial session = a check of a table with a ranged column after a table was made with fmt_obj=.")
 TRUSTED_BASE = [
     "gen/C13_Consts.v: the literal pieces of to_fmt_str, _parse_col_fmt, _parse_cols_fmt, both _get_fmt_str, "
     "_fmt_str_split, _parse_vis_lines_fmt, the keys of PPEnumFieldType._FMT_MODIFIERS and FieldType's default width "
@@ -46,14 +54,20 @@ ASSUMPTIONS = [
     "the renderer duplicates lines and reports a non-positive skipped count; outside the quantifier)",
     "the constructor round trip is claimed with the same fields/fields_types passed along and for tables with at "
     "least one column (a table without columns cannot be rendered at all)",
-    "life points = fresh / printed / re-formatted; remove_columns() on a printed table is exercised by the "
-    "correspondence but the oracle does not demand the round trip after it removed a break-by column (see notes)",
+    "life points = fresh / printed / re-formatted / made with fmt_obj= from a shared format object or from another "
+    "table's format object, with any operations on sibling tables in between; remove_columns() on a printed table is "
+    "exercised by the correspondence but the oracle does not demand the round trip after it removed a break-by column "
+    "(see notes)",
+    "all tables of a session have one record structure given as fields=[names] (+ fields_types); format objects are "
+    "handed over at the moment of the construction (no format object is held across a later fmt assignment)",
 ]
 MODELLED = ("ak/ppobj.py: ReprColumn.to_fmt_str, _ColumnsParsedFmt, ReprStructure.make (explicit fields) / "
-            "_set_parsed_fmt / detect_actual_columns_widths / remove_columns, _PPTableParsedFmt, PPTableFormat, "
-            "_PPTableImpl.__init__/set_fmt and the state-changing prefix of gen_ch_lines (visible lines, "
-            "any_lines_skipped, width negotiation).  Not modelled: cell rendering, value paths / enhanced fmt, "
-            "fmt_obj=, titles other than the field name")
+            "_set_parsed_fmt / detect_actual_columns_widths / remove_columns, _PPTableParsedFmt, PPTableFormat "
+            "(make, clone, set_limits), ReprStructure.clone / ReprColumn.clone, _PPTableImpl.__init__ (fmt= and "
+            "fmt_obj= with limits= / skip_columns=) / set_fmt and the state-changing prefix of gen_ch_lines (visible "
+            "lines, any_lines_skipped, width negotiation); sessions of several tables and shared format objects "
+            "(functional: every clone is a deep copy).  Not modelled: cell rendering, value paths / enhanced fmt, "
+            "titles other than the field name")
 
 
 class ExtractError(Exception):
@@ -1176,7 +1190,8 @@ def shrink_candidates(case):
 
 
 TECHNIQUE = ("Coq proofs (induction over strings / column lists / record lists) on a hand-written Gallina model of the fmt "
-             "mini-language and the table's format state + per-run correspondence check on life-cycle programs "
+             "mini-language and the table's format state (incl. tables made from format objects and sessions of several "
+             "tables) + per-run correspondence check on life-cycle programs and multi-table sessions "
              "(vm_compute vs implementation) + literal pieces of serializer and parser regenerated from the source")
 LEVEL_TEXT = ("Full at the level of the format state, for the stated domain: col_roundtrip (parse_col (to_str c) = Ok c-without-"
               "negotiated-width for EVERY column whose name has no , : ; ! / and no '<-' and no outer white space, any "
@@ -1192,13 +1207,24 @@ LEVEL_TEXT = ("Full at the level of the format state, for the stated domain: col
               "rendering' is tied to the rendering of cells (C12's subject, not modelled here) only through this format "
               "state / view; equality of the rendered text itself is checked on the implementation by the oracle "
               "(coloured and plain text of the table, of t.fmt = str(t.fmt), of PPTable(records, fmt=str(t.fmt), same "
-              "fields) and of '' ';' ';;' on copies of the table at every 'check' step).  Outside the claim: value "
+              "fields) and of '' ';' ';;' on copies of the table at every 'check' step).  Tables made from format OBJECTS: "
+              "reachable has the constructor R_obj (PPTable(records, fmt_obj=<any reachable state of a table over ANY "
+              "records>, limits=, skip_columns=)), so reachable_wf_coherent / roundtrip_at_any_moment cover such tables; "
+              "fmt_obj_state_fresh, fmt_obj_same_view, fmt_obj_own_widths (a table made from another table's format "
+              "object shows the widths negotiated from its OWN records), session_tables_reachable + "
+              "session_roundtrip_at_any_moment (every table of every session of the kind the correspondence runs - shared "
+              "PPTableFormat objects, tables made from strings / shared objects / other tables' .fmt, any interleaving of "
+              "operations - satisfies the property after any prefix), session_siblings_untouched (model: an operation "
+              "changes only its own table).  That the implementation's mutable ReprColumn / ReprStructure / PPTableFormat "
+              "objects behave like this deep-copy model is TESTED by the correspondence on generated sessions (digest of "
+              "every step + str(.fmt) of all tables and shared objects after every step) and by the oracle per table.  "
+              "Outside the claim: value "
               "paths / enhanced fmt (DESIGN section 7), tables without columns, negative limits, remove_columns of a "
               "break-by column of an already rendered table (remove_break_column_refuted shows the model's views "
               "differ there; candidate finding in c13.notes.md).  The literal pieces of serializer and parser, the enum "
               "modifiers and FieldType's default bounds are re-read from the source on every run (consts_ok).")
-LEVEL_NOTE = ("Trusted: Coq kernel + vm_compute; fidelity of the hand model (checked on ~430 / ~6000 life-cycle programs per "
-              "run by per-step digests of str(t.fmt), errors' classes, widths and body line counts; not proved); the hand "
+LEVEL_NOTE = ("Trusted: Coq kernel + vm_compute; fidelity of the hand model (checked on ~430 / ~6000 life-cycle programs and "
+              "~175 / ~2400 multi-table sessions per run by per-step digests of str(t.fmt), errors' classes, widths and body line counts; not proved); the hand "
               "model of int()/str()/strip/split/find (ASCII digits); harness-side cell lengths; the ast extractor. "
               "Print Assumptions: closed under the global context for every theorem.")
 DESIGN_REF = "DESIGN.md section 8, C13 (and section 7, both C13 rows)"
